@@ -55,6 +55,10 @@ impl UnmarshalError {
 pub type UnmarshalResult<T> = std::result::Result<T, UnmarshalError>;
 
 pub const HEADER_LEN: usize = 12;
+/// The maximum length of an array in bytes
+pub const MAX_ARRAY_LEN: usize = 64 * 1024 * 1024;
+/// The maximum length of a message in bytes, including the header
+pub const MAX_MESSAGE_LEN: usize = 128 * 1024 * 1024;
 
 pub fn unmarshal_header(cursor: &mut Cursor) -> UnmarshalResult<Header> {
     if cursor.remainder().len() < HEADER_LEN {
